@@ -371,3 +371,199 @@ func genC06(out, tier string, rng *rand.Rand) {
 	}
 	sink.Close("every interleaving (at the yield points before the table lock and between row fetch and write-back) of two requests drawn from {MutateRow, MutateRows, CheckAndMutateRow, ReadModifyWriteRow, ReadRows} on the same and on different rows, each schedule followed by a recorded round-robin drain, compared step by step (parked / blocked / returned + response) with the interleaving model, then a full read; plus (tag atomic) every position k of an invalid mutation in lists of length 1..5 for each write RPC; 3 engines; thorough adds sampled three-thread schedules; distinct = distinct canonical text; non-trivial = some step was blocked on the table lock, or a failure-atomicity case", tier == "quick" || tier == "thorough")
 }
+
+// ---------------- C18: multi-message scans against writers (leveldb engines) ----------------
+
+func leveldbEngines() []Engine { return engines()[1:] }
+
+func scanKey(i int) []byte { return []byte(fmt.Sprintf("k%02d", i)) }
+
+func c18Setup(nrows int) ([]Call, []BulkRow) {
+	setup := []Call{{Req: Req{Kind: "create", Parent: parentA, Tid: "t1", Fams: []FamDef{{Name: "cf"}, {Name: "cf2"}}}, Now: 1000000}}
+	var bulk []BulkRow
+	for i := 0; i < nrows; i++ {
+		b := BulkRow{Key: scanKey(i), Fam: "cf", NQ: 3, NV: 350, Base: 1000000, V: []byte{byte('A' + i)}}
+		bulk = append(bulk, b)
+		setup = append(setup, Call{Req: Req{Kind: "mutate", Table: concTable, Key: b.Key, Muts: b.muts()}, Now: 1000000})
+	}
+	return setup, bulk
+}
+
+func c18Writer(kind int, key []byte, variant int) Call {
+	now := int64(2000000000 + 1000*variant)
+	switch kind {
+	case 0:
+		return Call{Req: Req{Kind: "mutate", Table: concTable, Key: key, Muts: []Mutation{{Kind: "set", Fam: "cf2", Q: []byte("w"), Ts: -1, V: []byte(fmt.Sprint("w", variant))}, {Kind: "delcol", Fam: "cf", Q: []byte("q001")}}}, Now: now}
+	case 1:
+		return Call{Req: Req{Kind: "mutate", Table: concTable, Key: key, Muts: []Mutation{{Kind: "delrow"}}}, Now: now}
+	case 2:
+		return Call{Req: Req{Kind: "rmw", Table: concTable, Key: key, Rules: []Rule{{Kind: "append", Fam: "cf", Q: []byte("q000"), V: []byte("+")}, {Kind: "incr", Fam: "cf2", Q: []byte("n"), Amt: int64(variant)}}}, Now: now}
+	}
+	return Call{Req: Req{Kind: "mutaterows", Table: concTable, Entries: []Entry{{Key: key, Muts: []Mutation{{Kind: "set", Fam: "cf2", Q: []byte("e"), Ts: 5000, V: []byte("e")}}}, {Key: []byte("k99new"), Muts: []Mutation{{Kind: "set", Fam: "cf", Q: []byte("new"), Ts: 5000, V: []byte("n")}}}}}, Now: now}
+}
+
+func genC18(out, tier string, rng *rand.Rand) {
+	sink := NewSink(out, concPrelude, "ccase", "check_conc", 6)
+	const nrows = 5
+	setup, bulk := c18Setup(nrows)
+	final := []Call{{Req: Req{Kind: "read", Table: concTable}, Now: 9000000}}
+	scans := []Req{
+		{Kind: "read", Table: concTable},
+		{Kind: "read", Table: concTable, Ranges: []RowRange{{S: Bound{Kind: "closed", K: scanKey(0)}, E: Bound{Kind: "open", K: scanKey(2)}}, {S: Bound{Kind: "open", K: scanKey(2)}, E: Bound{Kind: "unset"}}}},
+		{Kind: "read", Table: concTable, Keys: [][]byte{scanKey(1), scanKey(4)}, Ranges: []RowRange{{S: Bound{Kind: "closed", K: scanKey(2)}, E: Bound{Kind: "closed", K: scanKey(3)}}}, Limit: 4},
+	}
+	var jobs []concJob
+	add := func(en Engine, scan Req, sched []int, writers [][]Call, tag string) {
+		threads := append([][]Call{{{Req: scan, Now: 3000000}}}, writers...)
+		jobs = append(jobs, concJob{en, setup, threads, sched, final, bulk, tag})
+	}
+	for _, en := range leveldbEngines() {
+		for si, scan := range scans {
+			if tier == "quick" && si == 2 && en.name == "leveldb-disk" {
+				continue
+			}
+			// the scan parks at r.lock (1 step) and then at one r.send per row
+			for h := 1; h <= nrows; h++ {
+				for kind := 0; kind < 4; kind++ {
+					for pos := -1; pos <= 1; pos++ {
+						target := h + pos // scan position h: rows < h already sent
+						if target < 0 || target >= nrows {
+							continue
+						}
+						if tier == "quick" && (h+kind+pos+si)%2 == 1 {
+							continue
+						}
+						var sched []int
+						for i := 0; i < 1+h; i++ {
+							sched = append(sched, 0)
+						}
+						w := c18Writer(kind, scanKey(target), h*10+kind)
+						// the writer runs completely while the scan is parked with the lock released
+						sched = append(sched, 1, 1, 1, 1)
+						add(en, scan, sched, [][]Call{{w}}, fmt.Sprintf("scan%d-h%d-w%d-p%d", si, h, kind, pos))
+					}
+				}
+			}
+			// a writer parked inside its section when the scan wants the lock back; two writers
+			add(en, scan, []int{0, 0, 1, 1, 0, 0, 1, 0}, [][]Call{{c18Writer(0, scanKey(3), 1), c18Writer(1, scanKey(1), 2)}}, "writer-holds")
+			add(en, scan, []int{1, 1, 0, 0, 0, 1, 0, 2, 2, 2, 0, 2, 0}, [][]Call{{c18Writer(2, scanKey(2), 3)}, {c18Writer(3, scanKey(4), 4), c18Writer(1, scanKey(0), 5)}}, "two-writers")
+		}
+	}
+	if tier == "thorough" {
+		for n := 0; n < 300; n++ {
+			en := leveldbEngines()[rng.Intn(2)]
+			scan := scans[rng.Intn(len(scans))]
+			var ws [][]Call
+			for t := 0; t < 2; t++ {
+				var cs []Call
+				for k := 0; k < 3; k++ {
+					cs = append(cs, c18Writer(rng.Intn(4), scanKey(rng.Intn(nrows)), n*10+t*3+k))
+				}
+				ws = append(ws, cs)
+			}
+			var sched []int
+			for i := 0; i < 40; i++ {
+				sched = append(sched, rng.Intn(3))
+			}
+			add(en, scan, sched, ws, "random")
+		}
+	}
+	runConcJobs(sink, jobs)
+	sink.Close(fmt.Sprintf("ReadRows scans over %d rows of 1050 cells each (every row forces a hand-over: more than the flush threshold of pending chunks) with full-table, two-range and keys+range+limit RowSets; at every hand-over a writer (MutateRow set+delete-column, DeleteFromRow, ReadModifyWriteRow, MutateRows incl. a new row) acts on the row before / at / after the scan position, plus schedules where a writer is parked inside its section when the scan wants the lock back and two-writer schedules; both leveldb engines; every scheduler step (parked / blocked / returned + rows) is compared with the snapshot-per-range interleaving model, then a full read; thorough adds random three-thread schedules; non-trivial = some step was blocked", nrows), false)
+}
+
+// ---------------- C16: GC hand-over against writers + sequential policy programs ----------------
+
+func genC16(out, tier string, rng *rand.Rand) {
+	sink := NewSink(out, concPrelude, "ccase", "check_conc", 10)
+	const nrows = 230
+	rule := &GcRule{Kind: "union", Rules: []GcRule{{Kind: "maxversions", N: 1}, {Kind: "maxage", Secs: 1000, Nanos: 0}}}
+	setup := []Call{{Req: Req{Kind: "create", Parent: parentA, Tid: "t1", Fams: []FamDef{{Name: "cf", Rule: rule}, {Name: "cf2"}}}, Now: 1000000}}
+	gckey := func(i int) []byte { return []byte(fmt.Sprintf("g%03d", i)) }
+	for i := 0; i < nrows; i++ {
+		ms := []Mutation{{Kind: "set", Fam: "cf", Q: []byte("a"), Ts: 5000000000, V: []byte("new")}, {Kind: "set", Fam: "cf", Q: []byte("a"), Ts: 4000000000, V: []byte("old")}}
+		if i%7 == 0 {
+			ms = []Mutation{{Kind: "set", Fam: "cf", Q: []byte("a"), Ts: 1000, V: []byte("ancient")}} // row disappears
+		}
+		if i%5 == 0 {
+			ms = append(ms, Mutation{Kind: "set", Fam: "cf2", Q: []byte("keep"), Ts: 1000, V: []byte("k")})
+		}
+		setup = append(setup, Call{Req: Req{Kind: "mutate", Table: concTable, Key: gckey(i), Muts: ms}, Now: 1000000})
+	}
+	gcNow := int64(5000000000 + 1000*1000000) // 1000 s after the newest cells: the boundary cell is exactly at the cut-off
+	gc := Call{Req: Req{Kind: "gc", Table: concTable}, Now: gcNow}
+	final := []Call{{Req: Req{Kind: "read", Table: concTable}, Now: 9000000}}
+	writer := func(kind, row, variant int) Call {
+		now := gcNow + int64(variant)*1000
+		switch kind {
+		case 0:
+			return Call{Req: Req{Kind: "mutate", Table: concTable, Key: gckey(row), Muts: []Mutation{{Kind: "set", Fam: "cf", Q: []byte("a"), Ts: 6000000000, V: []byte(fmt.Sprint("raced", variant))}, {Kind: "set", Fam: "cf", Q: []byte("b"), Ts: 1000, V: []byte("condemned-on-arrival")}}}, Now: now}
+		case 1:
+			return Call{Req: Req{Kind: "rmw", Table: concTable, Key: gckey(row), Rules: []Rule{{Kind: "append", Fam: "cf", Q: []byte("a"), V: []byte("+r")}}}, Now: now}
+		}
+		return Call{Req: Req{Kind: "mutate", Table: concTable, Key: []byte(fmt.Sprintf("g%03dx", row)), Muts: []Mutation{{Kind: "set", Fam: "cf", Q: []byte("a"), Ts: 6000000000, V: []byte("brand-new-row")}}}, Now: now}
+	}
+	var jobs []concJob
+	for _, en := range engines() {
+		for handover := 1; handover <= 2; handover++ {
+			for kind := 0; kind < 3; kind++ {
+				for _, row := range []int{20, 99, 100, 150, 199, 200, 229} {
+					if tier == "quick" && (row+kind+handover)%2 == 0 {
+						continue
+					}
+					var sched []int
+					for i := 0; i < handover; i++ {
+						sched = append(sched, 0)
+					}
+					sched = append(sched, 1, 1, 1)
+					jobs = append(jobs, concJob{en, setup, [][]Call{{gc}, {writer(kind, row, row)}}, sched, final, nil, fmt.Sprintf("gc-h%d-w%d-r%d", handover, kind, row)})
+				}
+			}
+		}
+		// writer parked inside its section when the pass wants the lock; pass started while a writer holds it
+		jobs = append(jobs, concJob{en, setup, [][]Call{{gc}, {writer(0, 150, 1), writer(1, 30, 2)}}, []int{0, 1, 1, 0, 0, 1, 0}, final, nil, "gc-writer-holds"})
+		jobs = append(jobs, concJob{en, setup, [][]Call{{gc}, {writer(0, 10, 3)}}, []int{1, 1, 0, 0, 1, 0}, final, nil, "gc-starts-blocked"})
+	}
+	runConcJobs(sink, jobs)
+	// the policy half: sequential programs with forced passes (random rule trees, contents, clocks)
+	n, length := 150, 30
+	if tier == "thorough" {
+		n, length = 3000, 50
+	}
+	var tasks []Task
+	for i := 0; i < n; i++ {
+		prog := genProgram(rng, "C16", length)
+		for _, en := range engines() {
+			tasks = append(tasks, Task{en, "policy", prog})
+		}
+	}
+	// cut-off boundaries: a cell exactly at, one microsecond-step below and above the max-age cut-off
+	for _, en := range engines() {
+		for _, d := range []int64{-1000, 0, 1000} {
+			for _, secs := range []int64{0, 1, 3600} {
+				cut := int64(7200000000)
+				prog := []Call{{Req: Req{Kind: "create", Parent: parentA, Tid: "t1", Fams: []FamDef{{Name: "cf", Rule: &GcRule{Kind: "maxage", Secs: secs, Nanos: 999}}}}, Now: 1000},
+					{Req: Req{Kind: "mutate", Table: concTable, Key: []byte("r"), Muts: []Mutation{{Kind: "set", Fam: "cf", Q: []byte("q"), Ts: cut + d, V: []byte("edge")}, {Kind: "set", Fam: "cf", Q: []byte("q"), Ts: cut + 5000, V: []byte("newer")}}}, Now: 1000},
+					{Req: Req{Kind: "gc", Table: concTable}, Now: cut + secs*1000000},
+					{Req: Req{Kind: "read", Table: concTable}, Now: 1000}}
+				tasks = append(tasks, Task{en, "boundary", prog})
+			}
+		}
+	}
+	type res struct {
+		c    Case
+		text string
+		js   []byte
+	}
+	rs := make([]res, len(tasks))
+	parallelN(16, len(tasks), func(i int) {
+		o := runProg(tasks[i].Engine, tasks[i].Prog)
+		c := Case{Store: tasks[i].Engine.name, Tag: tasks[i].Tag, Prog: tasks[i].Prog, Obs: o}
+		js, _ := json.Marshal(c)
+		rs[i] = res{c, c.coq(), js}
+	})
+	for _, r := range rs {
+		sink.AddPreV("seq", "check_all", "(list call * list bresp)", r.c, r.text, r.js, progNontrivial(r.c))
+	}
+	sink.Close(fmt.Sprintf("(a) a forced GC pass over %d rows (union of max-versions 1 and max-age 1000 s, the newest cells exactly at the cut-off; every 7th row loses all cells; a rule-less family) interleaved with a writer (MutateRow, ReadModifyWriteRow, a new row) acting during the first or second lock hand-over on rows already / not yet visited, and schedules where the writer holds the lock when the pass wants it; 3 engines; compared step by step with the interleaving model, then a full read. (b) tag policy/boundary: sequential random programs with random GC rule trees and forced passes, and cells exactly at / around the max-age cut-off. non-trivial = a blocked step (a) or a successful write and non-empty read (b)", nrows), false)
+}
